@@ -11,7 +11,7 @@ from common import time_limit, Timeout, hex6
 ID = "C19"
 GEN_DEPENDS = []
 RULE = ("histories of 1-10 operations (concatenate, export_character_indices/_subset, fill, fill_taxa, pack, add_/replace_/"
-        "update_/extend_sequences, extend_matrix, remove_/discard_/keep_sequences) over a pool of 2-5 matrices of one of the 8 "
+        "update_/extend_sequences, extend_matrix, remove_/discard_/keep_sequences, new_character_subset, matrix[taxon] get/set/del, new_sequence, clear, items, len/max_sequence_size) over a pool of 2-5 matrices of one of the 8 "
         "data types, two namespaces (the second one foreign), partial taxon overlap, ragged and rectangular rows, labels drawn "
         "from a small colliding set (None, equal, equal up to case, generated locusNNN / x_002 forms), the same object passed "
         "twice and as its own argument; plus concatenate_from_streams / concatenate_from_paths on NEXUS sources; thorough adds the exhaustive small scope "
@@ -25,24 +25,29 @@ MODELLED_NOT_VERIFIED = [
     "insertion order is not in the statement and is deliberately not compared",
     "C19: cells (state identities, floats, None) and character types are carried opaquely as small numbers; "
     "case folding is modelled for ASCII labels only (generated labels are ASCII or uncased)",
+    "C19: the reader behind concatenate_from_streams/_paths is abstract in the theorems; the driver instantiates it with the "
+    "protocol's matrix parser, and an unreadable NEXUS source / a missing path is compared as ParseError / OpenError only",
+    "C19: new_character_subset is generated with non-negative indices only (the model's index sets are lists of naturals)",
     "C19: 'arguments unchanged' and absence of aliasing are checked by fingerprinting every matrix of the pool before and after "
     "each call (value semantics make them trivial in the model); namespaces are not mutated during a history",
 ]
-EXPLANATION = ("42 theorems in Props/C19.lean about the definitions drv_c19 runs, none _partial. (d) add_spec (left-biased union), replace_spec, "
-               "update_spec (right-biased union), extend_spec, extendMatrix_spec (+ extendMatrix_eq), remove_spec / remove_untouched / "
-               "remove_ok_iff (KeyError exactly when a named taxon has no row or is named twice), discard_spec, keep_spec, rowOp_spec (same "
-               "namespace: only the rows change; other namespace: ValueError). (c) padLoop_eq (closed form of the while loop), fill_spec, "
-               "fill_equal_length, fill_all_equal (all rows, when rows are keyed by namespace taxa), fillTaxa_spec, pack_spec, "
-               "pack_equal_length(_sized). (b) export_row_spec (backwards deletion loop = selected columns ascending), export_spec, "
-               "exportSub_caseless, exportSub_undefined. (a) concat_ok_iff / concat_succeeds (over a non-empty namespace concatenate returns "
-               "iff every matrix passes the four documented guards - no label combination makes it fail), concat_error_kind, "
-               "concat_refuses_foreign, concat_empty_namespace_refused, concat_rows, concat_subsets, concat_subset_width, concat_subset_covers, "
-               "concat_all_present (pigeonhole: every taxon has a row in every source), concat_subset_labels (the exact name and span of each "
-               "subset), concat_labels_kept, concat_names_distinct, concat_same_namespace, concat_keys_nodup. Histories: keys_nodup_preserved "
-               "(every operation keeps the row store a dict, so the Nodup hypotheses compose along any operation sequence). (e) termination: "
-               "every model function is total; padLoop and freeFrom (the repaired free-name loop) are well-founded recursions without fuel, "
+EXPLANATION = ("74 theorems in Props/C19.lean about the definitions drv_c19 runs (Model/C19.lean, Model/C19Ext.lean), none _partial. "
+               "(d) add_spec, replace_spec, update_spec, extend_spec, extendMatrix_spec/_eq, remove_spec / remove_untouched / remove_ok_iff / "
+               "remove_partial_state, discard_spec, keep_spec, rowOp_spec. Element access: getItem_spec (matrix[taxon] creates a missing row), "
+               "getItem_idempotent, setItem_spec, newSequence_spec, delItem_spec, itemsOf_spec (namespace order), maxSeqSize_spec. "
+               "(c) padLoop_eq / padLoop_id / padLoop_iterate, fill_spec, fill_equal_length, fill_all_equal, fillTaxa_spec, pack_spec, "
+               "pack_equal_length(_sized). (b) export_row_spec, export_one_pass, export_index_shift, export_span, export_depends_on_set, "
+               "export_spec, exportSub_caseless/_undefined; subsets: mem_idxSet, idxSet_ascending, newSubset_spec/_lookup/_export. "
+               "(a) concat_ok_iff / concat_succeeds, concat_error_kind, concat_refuses_foreign, concat_empty_namespace_refused, concat_rows, "
+               "concat_subsets, concat_rounds, concat_subset_width/_covers, concat_all_present, concat_subset_labels, concat_labels_kept, "
+               "concat_names_distinct, concat_same_namespace, concat_export_roundtrip (exporting the subset recorded for a source gives back "
+               "its rows); fromStreams_eq_concatenate, fromStreams_reader_error, fromStreams_rows, fromPaths_eq_fromStreams, "
+               "fromPaths_open_error (abstract reader/open). Histories: keys_nodup_preserved, keys_invariant_preserved, wf_preserved, "
+               "concat_wf, concat_keys_nodup (well-formedness is invariant under every operation, so the hypotheses compose along any "
+               "history). (e) termination: all model functions total; padLoop and freeFrom are well-founded recursions without fuel; "
+               "measures explicit in padLoop_measure_step, freeFrom_probes_bound (Model: pending_decreases), delLoop_length_le; "
                "freeName_fresh / freeName_first. 'Arguments unchanged' is value semantics in the model and a fingerprint check on the "
-               "implementation; concatenate_from_streams/_paths are tied by oracle and model comparison only (parsing is C09/C13).")
+               "implementation.")
 
 CLASSES = {
     "dna": "DnaCharacterMatrix", "rna": "RnaCharacterMatrix", "nucleotide": "NucleotideCharacterMatrix",
@@ -55,7 +60,8 @@ CONT_VALUES = [0.0, 0.5, 1.0, -1.5, 2.25, 3, 7, 1e-05]
 LABELS = [None, None, "x", "X", "x", "y", "x_002", "X_002", "x_003", "locus000", "locus001", "LOCUS001", "locus002",
           "locus001_002", "", "a b", "_002", u"数", "x_1000"]
 TL = 2.0
-MUTATING = ("fill", "fill_taxa", "pack", "add", "replace", "update", "extend", "extend_new", "extend_matrix",
+ELEMENT = ("getitem", "setitem", "newseq", "delitem", "clear", "items")
+MUTATING = ("getitem", "setitem", "newseq", "delitem", "clear", "new_subset", "fill", "fill_taxa", "pack", "add", "replace", "update", "extend", "extend_new", "extend_matrix",
             "remove", "discard", "keep")
 BINARY = ("add", "replace", "update", "extend", "extend_new", "extend_matrix")
 
@@ -184,6 +190,27 @@ def execute(env, pool, op):
                     return "ok", m.export_character_subset(op["label"])
                 src = pool[op["from"]]
                 return "ok", m.export_character_subset(list(src.character_subsets.values())[op["k"]])
+            if name == "getitem":
+                return "ok", [env.code(v) for v in m[env.taxon_of[op["t"]]].values()]
+            if name == "setitem":
+                m[env.taxon_of[op["t"]]] = [env.value(m, c) for c in op["row"]]
+                return "ok", None
+            if name == "newseq":
+                m.new_sequence(env.taxon_of[op["t"]], [env.value(m, c) for c in op["row"]])
+                return "ok", None
+            if name == "delitem":
+                del m[env.taxon_of[op["t"]]]
+                return "ok", None
+            if name == "clear":
+                m.clear()
+                return "ok", None
+            if name == "items":
+                return "ok", [[env.gid_of.get(id(t), -1), [env.code(v) for v in seq.values()]] for t, seq in m.items()]
+            if name == "new_subset":
+                m.new_character_subset(op["label"], list(op["idx"]))
+                return "ok", None
+            if name == "sizes":
+                return "ok", [len(m), m.max_sequence_size]
             if name == "fill":
                 return "ok", m.fill(env.value(m, op["value"]), size=op["size"], append=op["append"])
             if name == "fill_taxa":
@@ -268,7 +295,7 @@ def oracle(env, op, pre, post, status, res, ret, pool_ids, res_id):
             bad.append(("aliasing", "%s returned one of the existing matrices" % name))
     if target is not None:
         s, p = pre[target], post[target]
-        if (s.subs, s.label, s.ns) != (p.subs, p.label, p.ns):
+        if (s.subs, s.label, s.ns) != (p.subs, p.label, p.ns) and name != "new_subset":
             bad.append(("argument-changed", "%s changed subsets/label/namespace of its matrix" % name))
 
     if name == "concat":
@@ -340,6 +367,67 @@ def oracle(env, op, pre, post, status, res, ret, pool_ids, res_id):
         return bad
 
     p = post[op["m"]]
+    if name in ELEMENT:
+        own = env.ns_gids(s.ns)
+        t = op.get("t")
+        want_rows, want_status, want_ret = dict(s.rows), "ok", None
+        if name == "getitem":
+            if t in s.rows:
+                want_ret = s.rows[t]
+            elif t in own:
+                want_rows[t] = []       # documented: "a new one will be created"
+                want_ret = []
+            else:
+                want_status = "ValueError"
+        elif name == "setitem":
+            if t in own:
+                want_rows[t] = list(op["row"])
+            else:
+                want_status = "ValueError"
+        elif name == "newseq":
+            if t in s.rows or t not in own:
+                want_status = "ValueError"
+            else:
+                want_rows[t] = list(op["row"])
+        elif name == "delitem":
+            if t in s.rows:
+                del want_rows[t]
+            else:
+                want_status = "KeyError"
+        elif name == "clear":
+            want_rows = {}
+        else:
+            want_ret = [[g, s.rows[g]] for g in own if g in s.rows]
+        if status != want_status:
+            bad.append(("element", "%s(%s): %s, expected %s" % (name, t, status, want_status)))
+        elif p.rows != want_rows or (p.subs, p.label, p.ns) != (s.subs, s.label, s.ns):
+            bad.append(("element", "%s(%s): %s -> %s, expected rows %s" % (name, t, s.state(), p.state(), state_string(want_rows, []))))
+        elif status == "ok" and name in ("getitem", "items") and ret != want_ret:
+            bad.append(("element", "%s(%s) returned %s, the rows say %s" % (name, t, ret, want_ret)))
+        return bad
+    if name == "sizes":
+        if status != "ok":
+            return bad + [("exception", "len / max_sequence_size raised %s" % status)]
+        want = [len(s.rows), max([len(r) for r in s.rows.values()] or [0])]
+        if list(ret) != want:
+            bad.append(("sizes", "len, max_sequence_size = %s, the rows say %s" % (ret, want)))
+        if p.key() != s.key():
+            bad.append(("argument-changed", "reading len / max_sequence_size changed the matrix"))
+        return bad
+    if name == "new_subset":
+        taken = op["label"].lower() in [k.lower() for k, _ in s.subs]
+        if (p.rows, p.label, p.ns) != (s.rows, s.label, s.ns):
+            bad.append(("argument-changed", "new_character_subset changed rows/label/namespace"))
+        if taken:
+            if status != "ValueError":
+                bad.append(("subset", "new_character_subset accepted the taken name %r (%s)" % (op["label"], status)))
+            elif p.subs != s.subs:
+                bad.append(("subset", "new_character_subset refused the name but changed the subsets"))
+        elif status != "ok":
+            bad.append(("exception", "new_character_subset raised %s" % status))
+        elif p.subs != s.subs + [(op["label"], sorted(set(op["idx"])))]:
+            bad.append(("subset", "new_character_subset(%r, %s): subsets %s -> %s" % (op["label"], op["idx"], s.subs, p.subs)))
+        return bad
     if name in ("fill", "fill_taxa", "pack"):
         if status != "ok":
             return bad + [("exception", "%s raised %s" % (name, status))]
@@ -441,6 +529,16 @@ def model_line(env, op, pre):
         return "%s %s %d %s %d" % (name, m, op["value"], "N" if op["size"] is None else op["size"], 1 if op["append"] else 0)
     if name == "fill_taxa":
         return "fill_taxa " + m
+    if name in ("getitem", "delitem"):
+        return "%s %s %d" % (name, m, op["t"])
+    if name in ("setitem", "newseq"):
+        return "%s %s %d %d %s" % (name, m, op["t"], len(op["row"]), " ".join(str(c) for c in op["row"]))
+    if name in ("clear", "items"):
+        return "%s %s" % (name, m)
+    if name == "sizes":
+        return "sizes " + m
+    if name == "new_subset":
+        return "new_subset %s %s %d %s" % (m, hex6(op["label"]), len(op["idx"]), " ".join(str(i) for i in op["idx"]))
     if name in BINARY:
         return "%s %s %s" % (name, m, enc_matrix(env, pre[op["o"]]))
     return "%s %s %d %s" % (name, m, len(op["taxa"]), " ".join(str(g) for g in op["taxa"]))
@@ -453,6 +551,12 @@ def impl_line(op, status, post, res, ret):
     if name in ("concat", "export_idx", "export_sub"):
         return "ok " + res.state() if status == "ok" else status
     p = post[op["m"]]
+    if name == "getitem":
+        return "ok row=%s %s" % (".".join(str(c) for c in ret), p.state()) if status == "ok" else status
+    if name == "items":
+        return " ".join(["ok"] + ["%d=%s" % (g, ".".join(str(c) for c in r)) for g, r in ret]) if status == "ok" else status
+    if name == "sizes":
+        return "ok %s %s" % (ret[0], ret[1]) if status == "ok" else status
     if name == "fill":
         return "ok %s %s" % (ret, p.state()) if status == "ok" else status
     if name == "remove":
@@ -506,7 +610,7 @@ def run_history(ctx, dendropy, hist, pending, shrink=True, gen=None, nops=0):
             return False
         creating = op["op"] in ("concat", "export_idx", "export_sub")
         res = Snap(env, out) if (creating and status == "ok") else None
-        ret = out if op["op"] == "fill" else None
+        ret = out if op["op"] in ("fill", "sizes", "getitem", "items") else None
         post = [Snap(env, m) for m in pool]
         problems = oracle(env, op, pre, post, status, res, ret, pool_ids, id(out) if creating else None)
         ctx.case([hist["dtype"], [s.key() for s in pre], op], nontrivial(op, pre),
@@ -641,8 +745,23 @@ def gen_op(rng, env, pre, max_w):
     elif r < 0.50:
         op = {"op": rng.choice(["fill", "fill", "pack"]), "m": m, "value": rng.randint(0 if rng.random() < 0.2 else 1, env.ncodes),
               "size": None if rng.random() < 0.5 else rng.randint(0, max_w + 2), "append": rng.random() < 0.6}
-    elif r < 0.55:
+    elif r < 0.53:
         op = {"op": "fill_taxa", "m": m}
+    elif r < 0.55:
+        op = {"op": rng.choice(["sizes", "items"]), "m": m}
+    elif r < 0.585:
+        univ = own if rng.random() < 0.85 else sorted(env.taxon_of)
+        name = rng.choice(["getitem", "getitem", "setitem", "newseq", "delitem", "clear"])
+        op = {"op": name, "m": m}
+        if name != "clear":
+            op["t"] = rng.choice(univ)
+        if name in ("setitem", "newseq"):
+            op["row"] = [rng.randint(1, env.ncodes) for _ in range(rng.randint(0, max_w))]
+    elif r < 0.625:
+        u = rng.random()
+        lab = rng.choice(s.subs)[0] if (s.subs and u < 0.3) else rng.choice([l for l in LABELS if l is not None])
+        op = {"op": "new_subset", "m": m, "label": rng.choice([lab, lab, lab.upper(), lab.lower()]),
+              "idx": [rng.randint(0, max_w * 2 + 1) for _ in range(rng.randint(0, 5))]}
     elif r < 0.82:
         op = {"op": rng.choice(BINARY), "m": m, "o": rng.randrange(n) if rng.random() < 0.9 else m}
     else:
@@ -676,10 +795,24 @@ def nexus_doc(labels, title, rows):
     return "\n".join(out) + "\n"
 
 
+BAD_DOCS = {"garbage": "garbage\n", "empty": ""}
+
+
 def stream_case(ctx, dendropy, case, pending):
-    """concatenate_from_streams on NEXUS documents: case = {labels, titles, rows: [[str per taxon] per stream]}"""
+    """concatenate_from_streams / concatenate_from_paths on NEXUS documents.
+    case = {labels, titles, rows: [[str per taxon] per source], via, bad: {index: kind} unreadable sources,
+            missing: [index] paths that do not exist}"""
     labels, titles, mats = case["labels"], case["titles"], case["rows"]
-    docs = [nexus_doc(labels, t, rows) for t, rows in zip(titles, mats)]
+    bad = {int(k): v for k, v in case.get("bad", {}).items()}
+    missing = set(case.get("missing", []))
+    docs = []
+    for i, (t, rows) in enumerate(zip(titles, mats)):
+        if bad.get(i) == "taxon":
+            docs.append(nexus_doc(labels[:-1] + ["zz"], t, rows))   # a taxon the shared namespace does not have
+        elif i in bad:
+            docs.append(BAD_DOCS[bad[i]])
+        else:
+            docs.append(nexus_doc(labels, t, rows))
     via = case.get("via", "streams")
     entry = "concatenate_from_" + via
     rep = dict(case, op=entry, stream=True)
@@ -691,49 +824,71 @@ def stream_case(ctx, dendropy, case, pending):
                 paths = []
                 for i, d in enumerate(docs):
                     paths.append(os.path.join(tmp, "m%d.nex" % i))
-                    with open(paths[-1], "w") as f:
-                        f.write(d)
+                    if i not in missing:
+                        with open(paths[-1], "w") as f:
+                            f.write(d)
                 res = dendropy.DnaCharacterMatrix.concatenate_from_paths(paths, "nexus")
             else:
                 res = dendropy.DnaCharacterMatrix.concatenate_from_streams([io.StringIO(d) for d in docs], "nexus")
     except Timeout:
         status = "Timeout"
+    except OSError:
+        status = "OpenError"
+    except dendropy.utility.error.DataParseError:
+        status = "ParseError"
+    except ValueError:
+        status = "ValueError"
     except Exception as e:
         status = "Internal(%s)" % type(e).__name__
     finally:
         if tmp is not None:
             shutil.rmtree(tmp, ignore_errors=True)
     rep["status"] = status
+    readable = not bad and not (via == "paths" and missing)
     ctx.case([via, case], len(mats) >= 2, kind=entry, sample={"op": entry, "titles": titles, "rows": mats})
-    if status != "ok":
+    ctx.count("%s:%s" % (entry, status))
+    got, subs = {}, []
+    if status == "Timeout" or status.startswith("Internal") or (readable and status != "ok"):
+        # the statement: the call terminates, and readable complete rectangular sources over one namespace are concatenated
         ctx.fail("Timeout-" + entry if status == "Timeout" else "exception",
                  "%s of %d NEXUS sources titled %s: %s" % (entry, len(docs), titles, status), rep)
         return
-    got = {t.label: "".join(str(v) for v in seq.values()) for t, seq in res._taxon_sequence_map.items()}
-    want = {l: "".join(rows[i] for rows in mats) for i, l in enumerate(labels)}
-    if got != want:
-        ctx.fail("concat-rows", entry + ": rows %s, concatenation in argument order is %s" % (got, want), rep)
-    spans, off = [], 0
-    for rows in mats:
-        spans.append(list(range(off, off + len(rows[0]))))
-        off += len(rows[0])
-    subs = [(k, sorted(cs.character_indices)) for k, cs in res.character_subsets.items()]
-    if [i for _, i in subs] != spans or len(set(k.lower() for k, _ in subs)) != len(subs):
-        ctx.fail("concat-subsets", entry + ": subsets %s, expected spans %s under distinct names" % (subs, spans), rep)
-    # the model is asked the same question on equivalent matrices
-    if pending is not None:
+    if status == "ok" and readable:
+        got = {t.label: "".join(str(v) for v in seq.values()) for t, seq in res._taxon_sequence_map.items()}
+        want = {l: "".join(rows[i] for rows in mats) for i, l in enumerate(labels)}
+        if got != want:
+            ctx.fail("concat-rows", entry + ": rows %s, concatenation in argument order is %s" % (got, want), rep)
+        spans, off = [], 0
+        for rows in mats:
+            spans.append(list(range(off, off + len(rows[0]))))
+            off += len(rows[0])
+        subs = [(k, sorted(cs.character_indices)) for k, cs in res.character_subsets.items()]
+        if [i for _, i in subs] != spans or len(set(k.lower() for k, _ in subs)) != len(subs):
+            ctx.fail("concat-subsets", entry + ": subsets %s, expected spans %s under distinct names" % (subs, spans), rep)
+    # the model runs concatFromStreams / concatFromPaths with the protocol's matrix parser as the reader
+    if pending is not None and (status != "ok" or readable):
         sym = {s: i + 1 for i, s in enumerate(x.symbol for x in dendropy.DnaCharacterMatrix.datatype_alphabet)}
         taxa = list(range(len(labels)))
-        ms = []
-        for t, rows in zip(titles, mats):
-            toks = ["0", str(len(taxa))] + [str(g) for g in taxa] + [hex6(t), str(len(taxa))]
-            for g, r in zip(taxa, rows):
-                toks += [str(g), str(len(r))] + [str(sym[c]) for c in r]
-            toks.append("0")
-            ms.append(" ".join(toks))
-        rows_now = {labels.index(l): [sym[c] for c in s] for l, s in got.items()}
-        pending.append(("concat %d %s" % (len(ms), " ".join(ms)), {"op": {"op": entry}, "case": case},
-                        "ok " + state_string(rows_now, subs)))
+        srcs = []
+        for i, (t, rows) in enumerate(zip(titles, mats)):
+            if i in bad:
+                toks = ["unreadable"] if bad[i] != "empty" else []
+            else:
+                toks = ["0", str(len(taxa))] + [str(g) for g in taxa] + [hex6(t), str(len(taxa))]
+                for g, r in zip(taxa, rows):
+                    toks += [str(g), str(len(r))] + [str(sym[c]) for c in r]
+                toks.append("0")
+            src = " ".join([str(len(toks))] + toks)
+            if via == "paths":
+                src = "0" if i in missing else "1 " + src
+            srcs.append(src)
+        line = "concat_%s %d %s" % (via, len(srcs), " ".join(srcs))
+        if status == "ok":
+            rows_now = {labels.index(l): [sym[c] for c in s] for l, s in got.items()}
+            want_line = "ok " + state_string(rows_now, subs)
+        else:
+            want_line = status
+        pending.append((line, {"op": {"op": entry}, "case": case}, want_line))
 
 
 def gen_stream_case(rng):
@@ -745,7 +900,13 @@ def gen_stream_case(rng):
     for _ in range(k):
         w = rng.randint(1, 4)
         mats.append(["".join(rng.choice("ACGT-?N") for _ in range(w)) for _ in range(n)])
-    return {"labels": labels, "titles": titles, "rows": mats, "via": rng.choice(["streams", "streams", "paths"])}
+    case = {"labels": labels, "titles": titles, "rows": mats, "via": rng.choice(["streams", "streams", "paths"])}
+    if rng.random() < 0.15:
+        i = rng.randrange(k)
+        case["bad"] = {str(i): rng.choice(["garbage", "empty", "taxon"] if i > 0 else ["garbage", "empty"])}
+    if case["via"] == "paths" and rng.random() < 0.1:
+        case["missing"] = [rng.randrange(k)]
+    return case
 
 
 # ------------------------------------------------------------------------------------------------ exhaustive small scope
@@ -812,6 +973,19 @@ def exhaustive(ctx, dendropy, pending):
         for lab in ("x", "X", "y_002", "z", ""):
             n += go(next(dtypes), [mat(a, subs=subs)], [{"op": "export_sub", "m": 0, "by": "label", "label": lab}])
         n += go(next(dtypes), [mat(a, subs=subs)], [{"op": "export_sub", "m": 0, "by": "obj", "from": 0, "k": 1}])
+    # element access, sizes, subset definition: every pattern x every taxon of {0, 1, foreign} / every name case
+    for a in pats:
+        for t in univ:
+            n += go(next(dtypes), [mat(a)], [{"op": "getitem", "m": 0, "t": t}, {"op": "getitem", "m": 0, "t": t},
+                                             {"op": "items", "m": 0}, {"op": "sizes", "m": 0}])
+            n += go(next(dtypes), [mat(a)], [{"op": "setitem", "m": 0, "t": t, "row": [5, 6]}, {"op": "items", "m": 0}])
+            n += go(next(dtypes), [mat(a)], [{"op": "newseq", "m": 0, "t": t, "row": [5]}, {"op": "sizes", "m": 0}])
+            n += go(next(dtypes), [mat(a)], [{"op": "delitem", "m": 0, "t": t}, {"op": "getitem", "m": 0, "t": t}])
+        n += go(next(dtypes), [mat(a)], [{"op": "clear", "m": 0}, {"op": "sizes", "m": 0}, {"op": "items", "m": 0}])
+        for lab in ("x", "X", "y", "Y_002", ""):
+            n += go(next(dtypes), [mat(a, subs=[["x", [0]], ["y_002", [1]]])],
+                    [{"op": "new_subset", "m": 0, "label": lab, "idx": [2, 0, 2]},
+                     {"op": "export_sub", "m": 0, "by": "label", "label": lab.upper()}])
     # concatenate: every list of <= 3 matrices over (label, width), complete over 2 taxa; repeated objects; foreign namespace
     labs = [None, "x", "X", "x_002", "locus001", "locus000"]
     kinds = [(l, w) for l in labs for w in (0, 1, 2)]
@@ -855,7 +1029,7 @@ def ncodes_table(dendropy):
 def run(ctx):
     dendropy = __import__("dendropy")
     rng = ctx.rng
-    ctx.set_budget(30, 420)
+    ctx.set_budget(25, 420)
     pending = []
     ncodes = ncodes_table(dendropy)
     nhist = ctx.pick(8000, 400000)
@@ -894,7 +1068,8 @@ def replay(ctx, rec):
     pending = []
     if c.get("stream"):
         stream_case(ctx, dendropy, {"labels": c["labels"], "titles": c["titles"], "rows": c["rows"],
-                                    "via": c.get("via", "streams")}, pending)
+                                    "via": c.get("via", "streams"), "bad": c.get("bad", {}),
+                                    "missing": c.get("missing", [])}, pending)
     else:
         run_history(ctx, dendropy, {"dtype": c["dtype"], "ns_sizes": c["ns_sizes"], "init": c["init"], "ops": c["ops"]},
                     pending, shrink=False)
